@@ -360,6 +360,13 @@ def rtree(t, integer):
     if k == "^":
         return "(%s)^%d" % (rtree(t[1], integer), t[2])
     if k == "if":
+        if len(t) > 4 and t[3][0] == "if":          # if .. then .. elseif .. (same meaning as the nested form)
+            txt, u = "", t
+            while len(u) > 4 and u[3][0] == "if":
+                txt += "%s %s then %s " % ("if" if u is t else "elseif", rtree(u[1], integer), rtree(u[2], integer))
+                u = u[3]
+            txt += "elseif %s then %s else %s" % (rtree(u[1], integer), rtree(u[2], integer), rtree(u[3], integer))
+            return "(%s)" % txt
         return "(if %s then %s else %s)" % (rtree(t[1], integer), rtree(t[2], integer), rtree(t[3], integer))
     if k == "not":
         return "(not %s)" % rtree(t[1], integer)
@@ -717,7 +724,7 @@ def gen_case_(rng, kind):
     return case
 
 
-def make_pvs(rng, P, booleans=None):
+def make_pvs(rng, P, booleans=None, force=None):
     """parameter vectors: declared values (when literal) + random ones; booleans = forced value of all Boolean
     parameters per vector (None = random)"""
     pvs = []
@@ -729,9 +736,12 @@ def make_pvs(rng, P, booleans=None):
             for d in dims:
                 cnt *= d
             dv = p["attrs"].get("value")
-            if p["type"] == "Boolean" and booleans and booleans[i] is not None:
+            if force and p["name"] in force and force[p["name"]][i] is not None:
+                vals = [Fr(force[p["name"]][i])] * cnt
+            elif p["type"] == "Boolean" and booleans and booleans[i] is not None:
                 vals = [Fr(booleans[i])] * cnt
-            elif i == 0 and dv is not None and dv["k"] in ("lit", "elems", "mat"):
+            elif i == 0 and dv is not None and dv["k"] in ("lit", "elems", "mat") \
+                    and all(x[0] == "lit" for x in decl_elems(dv, cnt, dims)):
                 vals = [x[1] for x in decl_elems(dv, cnt, dims)]
             elif p["type"] == "Boolean":
                 vals = [Fr(rng.randint(0, 1)) for _ in range(cnt)]
@@ -746,7 +756,7 @@ def make_pvs(rng, P, booleans=None):
 
 # ---- attributes switched by Boolean / Integer parameters (if, not, comparison) -----------------------
 def gen_switch(rng):
-    ifonly = rng.random() < 0.6      # only `if <Boolean parameter>`: no comparison / not instruction anywhere
+    ifonly = rng.random() < 0.5      # only `if <Boolean parameter>`: no comparison / not instruction anywhere
     P = [{"name": "flag", "cat": "param", "type": "Boolean", "dims": [], "attrs": {"value": lit("B", rng.random() < 0.5)}},
          {"name": "p", "cat": "param", "type": "Real", "dims": [], "attrs": {"value": lit("R", rlitval(rng, "R"))}}]
     if rng.random() < 0.5:
@@ -780,6 +790,26 @@ def gen_switch(rng):
         if integer:
             return ["c", fs(rlitval(rng, "I"))] if not ints or rng.random() < 0.6 else g_aff_p(rng, ints, 1, True)
         return ["c", fs(rlitval(rng, "R"))] if rng.random() < 0.55 else g_aff_p(rng, reals, 1, False)
+    force = {}
+
+    def chain(integer):
+        """if/elseif/else with OVERLAPPING conditions on one numeric parameter: the first true condition wins"""
+        src = rng.choice(ints if (integer or (ints and rng.random() < 0.4)) else reals)
+        par = ["p", src[0], None]
+        nb = rng.choice([2, 2, 3])
+        ks = sorted(rng.sample(range(-3, 4), nb), reverse=True)
+        up = rng.random() < 0.6                                   # p > k1 > k2 ...   or   p < k1 < k2 ...
+        if not up:
+            ks = ks[::-1]
+        conds = [["lt", ["c", fs(k)], par] if up else ["lt", par, ["c", fs(k)]] for k in ks]
+        t = branch(integer)
+        for c in reversed(conds):
+            t = ["if", c, branch(integer), t, "elseif"]
+        # evaluate where all conditions hold, where only the last ones hold, and somewhere else
+        f = force.setdefault(src[0], [None, None, None])
+        f[1] = (max(ks) + 1) if up else (min(ks) - 1)
+        f[2] = Fr(ks[-1] + ks[-2], 2) if src[2] == "Real" else None
+        return t
     pool = [("x", "state", "Real", []), ("a", "alg", "Real", []), ("w", "alg", "Real", []), ("i", "alg", "Integer", []),
             ("y", "alg", "Real", [2]), ("u", "input", "Real", [])]
     rng.shuffle(pool)
@@ -790,7 +820,10 @@ def gen_switch(rng):
         for a in ["min", "max", "start", "nominal"]:
             r = rng.random()
             if r < 0.3:
-                v["attrs"][a] = {"k": "exp", "e": ["if", cond(), branch(integer), branch(integer)]}
+                if not ifonly and rng.random() < 0.5 and (ints if integer else (reals or ints)):
+                    v["attrs"][a] = {"k": "exp", "e": chain(integer)}
+                else:
+                    v["attrs"][a] = {"k": "exp", "e": ["if", cond(), branch(integer), branch(integer)]}
                 switched += 1
             elif r < 0.5 and (ints if integer else reals):
                 v["attrs"][a] = {"k": "exp", "e": g_aff_p(rng, ints if integer else reals, rng.choice([1, 2]), integer)}
@@ -805,6 +838,11 @@ def gen_switch(rng):
                 v["attrs"]["fixed"]["each"] = True
             switched += 1
         V.append(v)
+    if not ifonly and not force:          # every mixed case carries at least one if/elseif/else chain
+        tgt = rng.choice(V)
+        tgt["attrs"][rng.choice(["min", "max", "start", "nominal"])] = \
+            {"k": "exp", "e": chain(tgt["type"] == "Integer"), **({"each": True} if tgt["dims"] else {})}
+        switched += 1
     if not switched:
         V[0]["attrs"]["max"] = {"k": "exp", "e": ["if", cond(), branch(V[0]["type"] == "Integer"), branch(V[0]["type"] == "Integer")]}
         if V[0]["dims"]:
@@ -813,7 +851,7 @@ def gen_switch(rng):
     via, opts = ("generate", {}) if r < 0.6 else ("generate", {"expand_mx": True}) if r < 0.8 else ("transfer", {})
     case = {"kind": "switch", "params": P, "vars": V, "via": via, "opts": opts}
     case["text"] = render(case)
-    case["pvs_exact"] = make_pvs(rng, P, booleans=[None, 1, 0])
+    case["pvs_exact"] = make_pvs(rng, P, booleans=[None, 1, 0], force=force)
     return case
 
 
@@ -839,18 +877,32 @@ def gen_extends(rng):
     types = {v["name"]: v["type"] for v in P + V}
     lvl_decl = [dict() for _ in range(levels)]          # per level: {name: {attr: decl}}
     overridden = 0
+    # combined spelling `name(attrs) = value` in an extends clause: value and attributes at the SAME level >= 1
+    combined = {}
+    for v in P:
+        dv = v["attrs"].get("value")
+        if v["type"] != "Boolean" and len(v.get("dims") or []) <= 1 and dv is not None and dv["k"] in ("lit", "elems", "exp") \
+                and rng.random() < 0.6:
+            combined[v["name"]] = rng.randrange(1, levels)
+            if not any(a != "value" and d is not None for a, d in v["attrs"].items()):
+                t = "I" if v["type"] == "Integer" else "R"
+                v["attrs"][rng.choice(["min", "max", "nominal"])] = lit(t, rlitval(rng, t), each=bool(v.get("dims")))
     for v in P + V:
         for a, d in v["attrs"].items():
             if d is None:
                 continue
-            modifiable = not (a == "value" and (v["cat"] == "constant" or d["k"] not in ("lit", "elems")))
+            modifiable = not (a == "value" and (v["cat"] == "constant" or d["k"] not in ("lit", "elems", "exp")))
             top = rng.randrange(levels) if modifiable else 0
+            if a == "value" and d["k"] == "exp" and v["name"] not in combined:
+                top = 0
+            if v["name"] in combined:
+                top = combined[v["name"]]
             lvl_decl[top].setdefault(v["name"], {})[a] = d
             if top >= 1 and rng.random() < 0.75:
                 low = rng.randrange(top)
                 if a == "value":
                     t = "I" if v["type"] == "Integer" else "R"
-                    inner = lit(t, rlitval(rng, t)) if d["k"] == "lit" else \
+                    inner = lit(t, rlitval(rng, t)) if d["k"] in ("lit", "exp") else \
                         {"k": "elems", "es": [lit(t, rlitval(rng, t)) for _ in d["es"]]}
                     if v["type"] == "Boolean":
                         inner = lit("B", not d["v"])
@@ -867,7 +919,8 @@ def gen_extends(rng):
         txt += "model %s\n  extends %s%s;\nend %s;\n" % (names[k], names[k - 1], "(%s)" % mods if mods else "", names[k])
     r = rng.random()
     case = {"kind": "extends", "params": P, "vars": V, "via": "generate" if r < 0.75 else "transfer",
-            "opts": {"expand_mx": True} if r < 0.2 else {}, "text": txt, "overridden": overridden}
+            "opts": {"expand_mx": True} if r < 0.2 else {}, "text": txt, "overridden": overridden,
+            "combined": sorted(combined)}
     case["pvs_exact"] = make_pvs(rng, P)
     return case
 
@@ -895,10 +948,47 @@ def gen_component(rng):
                 if top >= 1 and rng.random() < 0.8:
                     lvl[rng.randrange(top)].setdefault(nm, {})[a] = mk()
         V.append(v)
-    P = [{"name": "p", "cat": "param", "type": "Real", "dims": [], "attrs": {"value": lit("R", rlitval(rng, "R"))}}]
+    P = [{"name": "p", "cat": "param", "type": "Real", "dims": [], "attrs": {"value": lit("R", rlitval(rng, "R"))}},
+         {"name": "n", "cat": "param", "type": "Integer", "dims": [], "attrs": {"value": lit("I", rlitval(rng, "I"))}}]
+    mslots = {"Real": [("p", None, "Real")], "Integer": [("n", None, "Integer")]}
+    pcomps = [("q", "Real", []), ("c", "Integer", []), ("wv", "Real", [2])]
+    IP = []
+    for nm, T, dims in pcomps[:rng.randint(1, 3)]:
+        v = {"name": prefix + nm, "cat": "param", "type": T, "dims": dims, "attrs": {}}
+        t = "I" if T == "Integer" else "R"
+        integer = T == "Integer"
+
+        def mkval(allow_exp):
+            if dims:
+                return {"k": "elems", "es": [{"k": "exp", "e": g_aff_p(rng, mslots[T], 1, integer)} if allow_exp and rng.random() < 0.5
+                                             else lit(t, rlitval(rng, t)) for _ in range(dims[0])]}
+            if allow_exp and rng.random() < 0.6:
+                return {"k": "exp", "e": g_aff_p(rng, mslots[T], 1, integer)}
+            return lit(t, rlitval(rng, t))
+
+        def mkattr(allow_exp):
+            if allow_exp and rng.random() < 0.5:
+                return {"k": "exp", "e": g_aff_p(rng, mslots[T], 1, integer), **({"each": True} if dims else {})}
+            return lit(t, rlitval(rng, t), each=bool(dims))
+        # Inner declares a literal value; a level >= 1 gives value AND attributes together: q(min = .., max = ..) = ..
+        lvl[0].setdefault(nm, {})["value"] = mkval(False)
+        top = rng.randrange(1, levels)
+        v["attrs"]["value"] = mkval(True)
+        lvl[top].setdefault(nm, {})["value"] = v["attrs"]["value"]
+        for a in rng.sample(["min", "max", "nominal"], rng.randint(1, 2)):
+            v["attrs"][a] = mkattr(True)
+            lvl[top][nm][a] = v["attrs"][a]
+            if rng.random() < 0.4:
+                lvl[0][nm][a] = mkattr(False)
+        if top == 2 and rng.random() < 0.5:
+            lvl[1].setdefault(nm, {})["value"] = mkval(False)
+        IP.append(v)
+    P = IP + P
     w = {"name": "w", "cat": "alg", "type": "Real", "dims": [], "attrs": {"max": {"k": "exp", "e": g_aff_p(rng, [("p", None, "Real")], 1, False)}}}
-    types = {nm: T for nm, T, _ in comps}
-    inner = {"params": [], "vars": [{"name": nm, "cat": "alg", "type": T, "dims": dims, "attrs": dict(lvl[0].get(nm, {}))} for nm, T, dims in comps]}
+    types = {nm: T for nm, T, _ in comps + pcomps}
+    inner = {"params": [{"name": nm, "cat": "param", "type": T, "dims": dims, "attrs": dict(lvl[0].get(nm, {}))}
+                        for nm, T, dims in pcomps if prefix + nm in [x["name"] for x in IP]],
+             "vars": [{"name": nm, "cat": "alg", "type": T, "dims": dims, "attrs": dict(lvl[0].get(nm, {}))} for nm, T, dims in comps]}
     txt = render(inner).replace("model M\n", "model Inner\n").replace("end M;", "end Inner;")
     if levels == 3:
         # Sub extends Inner with modifications, M instantiates Sub with modifications (a nested component
@@ -910,8 +1000,8 @@ def gen_component(rng):
     else:
         m1 = rmods(lvl[1], types)
         inst = "  Inner i%s;\n" % ("(%s)" % m1 if m1 else "")
-    txt += "model M\n%s  parameter Real p = %s;\n  Real w(max = %s);\nequation\n  w = 1;\nend M;\n" % (
-        inst, rdecl(P[0]["attrs"]["value"], False), rdecl(w["attrs"]["max"], False))
+    txt += "model M\n%s  parameter Real p = %s;\n  parameter Integer n = %s;\n  Real w(max = %s);\nequation\n  w = 1;\nend M;\n" % (
+        inst, rdecl(P[-2]["attrs"]["value"], False), rdecl(P[-1]["attrs"]["value"], True), rdecl(w["attrs"]["max"], False))
     case = {"kind": "component", "params": P, "vars": V + [w], "via": "generate", "opts": {}, "text": txt}
     case["pvs_exact"] = make_pvs(rng, P)
     return case
@@ -1512,9 +1602,9 @@ def run(ctx):
     ctx.notes["source_fingerprint"] = {"model.py": fp, "generator.py": fp2}
 
     # ---- cases
-    mix = [("single_affine", ctx.scaled(7, 120)), ("single_mixed", ctx.scaled(5, 70)), ("single_bilinear", ctx.scaled(6, 60)),
-           ("multilinear", ctx.scaled(7, 80)), ("matrix2d", ctx.scaled(6, 70)), ("sequence", ctx.scaled(7, 80)),
-           ("switch", ctx.scaled(8, 80)), ("extends", ctx.scaled(6, 60)), ("component", ctx.scaled(3, 30)),
+    mix = [("single_affine", ctx.scaled(6, 120)), ("single_mixed", ctx.scaled(5, 70)), ("single_bilinear", ctx.scaled(6, 60)),
+           ("multilinear", ctx.scaled(6, 80)), ("matrix2d", ctx.scaled(5, 70)), ("sequence", ctx.scaled(6, 80)),
+           ("switch", ctx.scaled(10, 90)), ("extends", ctx.scaled(6, 60)), ("component", ctx.scaled(5, 40)),
            ("multi", ctx.scaled(6, 160)),
            ("none", ctx.scaled(3, 30)), ("subst", ctx.scaled(6, 70)), ("known_shape", ctx.scaled(3, 30))]
     cases = []
